@@ -3,7 +3,7 @@ ID = "C07"
 CRATE = "c07"
 COQ_DIR = "C07"
 COQ_DEPS = ["C11"]
-PROFILES = ["debug"]
+PROFILES = ["debug", "release"]
 CORR_IMPORT = "From RlibV Require Import C11.Model C07.Model C07.Corr.\nOpen Scope Z_scope."
 AUDIT_IMPORT = ("From Coq Require Import ZArith QArith Qround List.\n"
                 "From RlibV Require Import C11.Model C07.Model C07.Spec C07.Trace C07.Corr C07.Scope C07.Properties.\nOpen Scope Z_scope.")
